@@ -221,6 +221,9 @@ func (c *Ctx) RunScript(ops []SOp, p redact.SafePrinter, st fmt.State, verb rune
 			case "WriteString":
 				io.WriteString(st, string(c.Subst(op.B)))
 				continue
+			case "WriteVerb":
+				io.WriteString(st, string(verb))
+				continue
 			case "Discover":
 				if sp, ok := st.(redact.SafePrinter); ok {
 					p = sp
@@ -277,6 +280,8 @@ func (c *Ctx) RunScript(ops []SOp, p redact.SafePrinter, st fmt.State, verb rune
 			p.Write(c.Subst(op.B))
 		case "WriteString":
 			io.WriteString(p, string(c.Subst(op.B)))
+		case "WriteVerb":
+			io.WriteString(p, string(verb))
 		case "Print":
 			p.Print(c.Values(op.Ts)...)
 		case "Printf":
